@@ -296,11 +296,14 @@ def r05_2_noop_predicates_agree(ctx: Ctx, rule: str = "R05.2") -> None:
     # has_projection / has_deduplication are None tests on the slot (apply_skip applies iff not None)
     for slot in ("projection", "deduplication"):
         hp = sel.methods.get(f"has_{slot}")
-        rets = [src(p.value) for p in ctx.paths(hp)] if hp else []
-        if rets == [f"self.{slot} is not None"]:
+        from .. import boolfn as B
+
+        got = B.function_truth(ctx.paths(hp)) if hp else None
+        want = B.neg(B.atom("IS", *sorted(("None", f"self.{slot}"))))
+        if got is not None and B.equivalent(got, want)[0]:
             run.ok(rule, f"Select.has_{slot}")
         else:
-            run.fail(rule, f"Select.has_{slot}", f"Select.has_{slot} is `{rets}`, not `self.{slot} is not None` (the condition under which apply_skip applies the slot)", fi=hp or ask)
+            run.fail(rule, f"Select.has_{slot}", f"Select.has_{slot} is `{B.show(got) if got else None}`, not `self.{slot} is not None` (the condition under which apply_skip applies the slot)", fi=hp or ask)
     # Projection / Selection no-op predicates: same fact in _begin_apply and _finish_apply
     for cname, fact_text in (("Projection", None), ("Selection", None)):
         c = ctx.op_class(cname)
